@@ -47,7 +47,7 @@ def exec_route(spec, env):
             # one long-lived object queried repeatedly, with the expression used through other entry points in between
             def pt(pn):
                 return p if pn == "" else rt.make_point(coords(spec.get("pre_supplied", vs), env, pn + "_"))
-            steps = [("obj", pt(st[1])) if st[0] == "obj" else ("expr", st[1], pt(st[2])) for st in reuse]
+            steps = [(st[0], pt(st[1])) if st[0] in ("obj", "comp") else ("expr", st[1], pt(st[2])) for st in reuse]
             outs.append(rt.run_route_reusing(r, e, spec["vars"] if r.endswith("_all") else spec.get("var"), steps, p))
         else:
             v = spec["vars"] if r.endswith("_all") else ([spec["var"], spec["var2"]] if r.startswith("synth2") else spec.get("var"))
